@@ -21,7 +21,7 @@ MODULE = "DrandProofs.C04"
 THEOREMS = ["Drand.Beacon.Handler." + t for t in [
     "c04_time_of_round_le", "c04_next_round", "c04_inv_init", "c04_inv_step", "c04_emit_rule", "c04_catchup_safe",
     "c04_tick_safe_partial", "c04_accept_window", "c04_refuse_beyond_window", "c04_no_early_emit",
-    "c04_no_early_emit_partial", "c04_counterexample", "c04_counterexample_fixed", "c04_head_bound", "c04_ticker_sound",
+    "c04_code_no_early_emit", "c04_no_early_emit_partial", "c04_counterexample", "c04_counterexample_fixed", "c04_head_bound", "c04_ticker_sound",
     "tie_bnp_round", "tie_bnp_resign", "tie_bnp_resign_round", "tie_bnp_order", "tie_tick_branch", "tie_catchup_branch",
     "tie_process_partial", "tie_ticker"]]
 TRUSTED = [
@@ -175,7 +175,7 @@ def annotate(seq, outs):
 
 def run_model(seqs, outs, variant):
     lines = [l for s, o in zip(seqs, outs) for l in annotate(s, o)]
-    rc, mo, err = core.run_lines(D, ["handler"] + (["fixed"] if variant == "fixed" else []), lines, timeout=3000)
+    rc, mo, err = core.run_lines(D, ["handler", variant], lines, timeout=3000)
     if rc != 0 or len(mo) != len(lines):
         raise core.Broken("model:handler", f"exit {rc}, {len(mo)}/{len(lines)} lines: {err[-1500:]}")
     res, k = [], 0
@@ -189,6 +189,8 @@ def compare(seq, outs, mouts):
     """-> (validated_ops, stop_reason or None, divergence index or None)"""
     for i, (o, m) in enumerate(zip(outs, mouts)):
         pm = parse(m) if m != "bad-op" else {"flags": [], "body": "bad-op"}
+        if "invalid-event" in pm["flags"]:
+            return i, None, i      # the driver fed `step` an event outside `evOk`: the theorems would not apply
         if "race" in pm["flags"] or "unmodelled" in pm["flags"]:
             return i, "race" if "race" in pm["flags"] else "unmodelled", None
         body = o.split(" # ")[0]
@@ -463,7 +465,7 @@ def model_guided(rng, count, limit=24):
         for i in range(count):
             scen.append(g(rng.fork(f"guided:{name}{i}")))
     lines = [l for s in scen for l in s]
-    rc, mo, err = core.run_lines(D, ["handler"], lines, timeout=3000)
+    rc, mo, err = core.run_lines(D, ["handler"], lines, timeout=3000)   # variant as regenerated from the source
     if rc != 0 or len(mo) != len(lines):
         return []
     cands, k = [], 0
@@ -559,6 +561,12 @@ def explore(ctx, res):
         n_batches = 1
     reported = set()
     known_confirmed = 0
+    try:
+        gen = open(os.path.join(core.LEAN, "Gen", "Handler.lean")).read()
+    except OSError:
+        gen = ""
+    # which variant the SOURCE is, according to the regenerated fact (guard `if upon.Round > current.round {return}`)
+    src_variant = "fixed" if "def bnpSkipAhead : Bool := true" in gen else "asis"
     variants = {"asis": 0, "fixed": 0}
     div_reported = 0
     stop = False
@@ -653,7 +661,8 @@ def explore(ctx, res):
                 mo = run_model(seqs, outs, v)
                 results[v] = ([compare(s, o, m) for s, o, m in zip(seqs, outs, mo)], mo)
             nd = {v: sum(1 for c in results[v][0] if c[2] is not None) for v in results}
-            variant = "asis" if nd["asis"] <= nd["fixed"] else "fixed"
+            other = "fixed" if src_variant == "asis" else "asis"
+            variant = src_variant if nd[src_variant] <= nd[other] else other
             variants[variant] += 1
             cmp_, mo = results[variant]
             for si, (c, m) in enumerate(zip(cmp_, mo)):
@@ -688,8 +697,14 @@ def explore(ctx, res):
                                    "note": "correspondence 'handler' no longer checks at this op; the no-early-emission / acceptance-window oracle accepts the implementation's answers on this schedule"},
                                   found=False)
     res.cov["variant_matched"] = "asis" if variants["asis"] >= variants["fixed"] else "fixed"
+    res.cov["variant_in_source"] = src_variant
     if variants["asis"] and variants["fixed"]:
         res.cov["variant_matched"] = f"mixed {variants}"
+    other = "fixed" if src_variant == "asis" else "asis"
+    if variants[other] and not res.violations:
+        res.add_violation({"engine": "handler", "kind": "model-impl-diverge",
+                           "note": f"the regenerated source fact says variant '{src_variant}' but the node behaves like variant '{other}' on head-ahead ticks"},
+                          found=False)
     res.cov.update(evaluations=st.total_ops, distinct_nontrivial=len(st.nontriv), traces_validated_against_impl=st.validated)
     res.cov["ops_validated_against_model"] = st.validated_ops
     res.cov["model_diff_stopped_early"] = st.stops
